@@ -83,6 +83,8 @@ struct PHist {
         Mark(std::string("op-begin ") + (wo.generated_seed ? "create-generated 1" : "create-fixed 0"));
         WalletSim ws(sim, wo);
         sim.SyncSignals();
+        // CWallet::CreateNew gives every new wallet this flag (descriptor caches are complete from birth); WalletSim builds the wallet by hand
+        ws.wallet().SetWalletFlag(wallet::WALLET_FLAG_LAST_HARDENED_XPUB_CACHED);
         Mark(std::string("op-end ") + (wo.generated_seed ? "create-generated" : "create-fixed"));
         Mark("begin");
 
@@ -122,8 +124,12 @@ struct PHist {
 
         auto restart = [&] {
             sim.SyncSignals();
-            // the wallet tops up its keypool when it is loaded: do it now so that loading changes nothing
-            ws.wallet().TopUpKeyPool();
+            // the wallet tops up keypools when it is loaded (active descriptors in LoadExisting; any descriptor that a mempool / rescanned
+            // transaction pays, through MarkUnusedAddresses): do it now for every descriptor so that loading changes nothing
+            {
+                LOCK(ws.wallet().cs_wallet);
+                for (auto* spkm : ws.wallet().GetAllScriptPubKeyMans()) spkm->TopUp();
+            }
             const std::vector<std::string> before = crash_mode ? std::vector<std::string>{} : CanonicalDump(ws.wallet());
             {
                 std::vector<COutPoint> locked_now;
@@ -146,7 +152,7 @@ struct PHist {
                 const std::vector<std::string> after = CanonicalDump(ws.wallet());
                 st.steps++;
                 std::string diff = FirstDifference(before, after);
-                VCHECK(diff.empty(), "c43.dump-differs-after-restart", diff, "| restart #", n_reload, "lines", before.size());
+                VCHECK(diff.empty(), "c43.dump-differs-after-restart", diff, "| restart #", n_reload, "lines", before.size(), "| history:", st.sample);
                 std::vector<COutPoint> locked_now;
                 WITH_LOCK(ws.wallet().cs_wallet, ws.wallet().ListLockedCoins(locked_now));
                 st.steps++;
@@ -159,7 +165,9 @@ struct PHist {
         };
 
         for (unsigned op = 0; op < nops && !s.exhausted(); ++op) {
-            const unsigned kind = s.range<unsigned>(0, 21);
+            unsigned kind = s.range<unsigned>(0, 21);
+            // crash workloads: more of the operations the statement lists as one database transaction (and of what feeds them)
+            if (crash_mode && s.chance(110)) kind = s.pick<unsigned>({16, 15, 14, 9, 8, 2});
             st.mix(uint64_t(kind));
             if (kind <= 1) {
                 const OutputType t = ALL_TYPES[s.index(4)];
@@ -203,6 +211,8 @@ struct PHist {
                 std::advance(it, s.index(L.spendable.size()));
                 const WsCoin& c = L.coins.at(it->first);
                 if (c.value < 3 * FEE + 2000) continue;
+                // CommitTransaction's contract (CreateTransaction only selects such coins): the transaction that created the coin is in the wallet
+                if (!WITH_LOCK(ws.wallet().cs_wallet, return ws.wallet().mapWallet.count(it->first.hash))) continue;
                 auto chg = ws.wallet().GetNewChangeDestination(OutputType::BECH32);
                 if (!chg) continue;
                 std::vector<CTxOut> outs{CTxOut((c.value - FEE) / 2, P2WSH_OP_TRUE), CTxOut(c.value - FEE - (c.value - FEE) / 2, GetScriptForDestination(*chg))};
@@ -227,7 +237,7 @@ struct PHist {
                 const bool own = !own_dests.empty() && s.boolean();
                 CTxDestination dest = own ? own_dests[s.index(own_dests.size())] : CTxDestination(PKHash(uint160(std::vector<unsigned char>(20, uint8_t(1 + s.range<unsigned>(0, 5))))));
                 begin_op("setlabel", false);
-                ws.wallet().SetAddressBook(dest, LABELS[s.index(LABELS.size())], own ? AddressPurpose::RECEIVE : AddressPurpose::SEND);
+                ws.wallet().SetAddressBook(dest, LABELS[s.index(LABELS.size())], own ? wallet::AddressPurpose::RECEIVE : wallet::AddressPurpose::SEND);
                 end_op("setlabel");
                 if (!own && std::find(foreign_book.begin(), foreign_book.end(), dest) == foreign_book.end()) foreign_book.push_back(dest);
                 st.note(own ? "label-own" : "label-foreign");
@@ -270,20 +280,21 @@ struct PHist {
                 }
             } else if (kind == 12) {
                 if (encrypted && locked) do_unlock();
-                const unsigned form = s.range<unsigned>(0, 2);
+                unsigned form = s.range<unsigned>(0, 3); // 3: HARDENED range (every top-up writes one cache row per new index)
+                if (form == 3 && wo.generated_seed) form = 2; // WalletSim::Reload re-expands the descriptors of a generated-seed wallet from their PUBLIC strings
                 ++n_import;
                 std::string d;
                 if (form == 0) { CKey k; std::vector<unsigned char> b(32, uint8_t(0x40 + n_import)); k.Set(b.begin(), b.end(), true); d = "wpkh(" + EncodeSecret(k) + ")"; }
                 else if (form == 1) { CKey k; std::vector<unsigned char> b(32, uint8_t(0x60 + n_import)); k.Set(b.begin(), b.end(), true); d = "pkh(" + EncodeSecret(k) + ")"; }
-                else d = std::string("wpkh(") + IMPORT_TPRV + "/43h/" + util::ToString(n_import) + "/*)";
-                const bool active = form == 2 && s.boolean();
+                else d = std::string("wpkh(") + IMPORT_TPRV + "/43h/" + util::ToString(n_import) + (form == 2 ? "/*)" : "h/*h)");
+                const bool active = form >= 2 && s.boolean();
                 std::string err;
                 begin_op("import", false);
                 auto id = ImportDescriptor(ws.wallet(), d, active, /*internal=*/false, /*range_end=*/wo.keypool, LABELS[s.index(LABELS.size())], &err);
                 end_op("import");
                 VCHECK(id.has_value(), "c43.harness", "import failed", err);
                 model.AddString(d);
-                st.note("import(", form == 2 ? (active ? "ranged,active" : "ranged") : "single-key", ")");
+                st.note("import(", form >= 2 ? (active ? "ranged,active" : "ranged") : "single-key", form == 3 ? ",hardened" : "", ")");
             } else if (kind == 13) {
                 const unsigned what = s.range<unsigned>(0, 3);
                 begin_op("setting", false);
@@ -300,10 +311,14 @@ struct PHist {
                 st.note("setting#", what);
             } else if (kind == 14) {
                 // removal of wallet transactions (removeprunedfunds): one database transaction
+                // precondition (removeprunedfunds is for transactions the node no longer serves): not in the node mempool, else the wallet
+                // legitimately learns the transaction again from the mempool when it is loaded
                 std::vector<Txid> have;
                 {
+                    std::set<Txid> in_mempool;
+                    for (auto& tx : ws.MempoolTxs()) in_mempool.insert(tx->GetHash());
                     LOCK(ws.wallet().cs_wallet);
-                    for (auto& id : wallet_txids) if (ws.wallet().mapWallet.count(id)) have.push_back(id);
+                    for (auto& id : wallet_txids) if (ws.wallet().mapWallet.count(id) && !in_mempool.count(id)) have.push_back(id);
                 }
                 if (have.empty()) continue;
                 std::vector<Txid> rm;
@@ -399,7 +414,7 @@ VERIF_TARGET(c43_lockcoins, nullptr, 8, 96,
     WalletSim ws(sim, wo);
     std::set<COutPoint> locked, persistent;
     const COutPoint coins[3] = {COutPoint(Txid::FromUint256(uint256(uint8_t(1))), 0), COutPoint(Txid::FromUint256(uint256(uint8_t(1))), 1), COutPoint(Txid::FromUint256(uint256(uint8_t(2))), 0)};
-    unsigned nops = s.range<unsigned>(2, 16);
+    unsigned nops = s.range<unsigned>(4, 16);
     int restarts = 0, unlocks = 0, relocks = 0;
     bool restart_with_persistent = false;
     auto check = [&](const char* when, const std::set<COutPoint>& want) {
@@ -410,27 +425,32 @@ VERIF_TARGET(c43_lockcoins, nullptr, 8, 96,
         std::string diff;
         for (auto& c : got) if (!want.count(c)) diff += " wallet lists " + c.ToString() + " as locked, the model does not;";
         for (auto& c : want) if (!got.count(c)) diff += " the model holds " + c.ToString() + " as locked, the wallet does not;";
-        VCHECK(diff.empty(), "c43.locked-coins-differ", when, diff);
+        VCHECK(diff.empty(), "c43.locked-coins-differ", when, diff, "| history:", st.sample);
     };
     for (unsigned op = 0; op < nops && !s.exhausted(); ++op) {
-        const unsigned kind = s.range<unsigned>(0, 6);
-        const COutPoint& c = coins[s.index(3)];
-        st.mix(uint64_t(kind)); st.mix(uint64_t(c.n + 2 * (c.hash == coins[2].hash)));
-        if (kind <= 2) {
-            const bool persist = s.boolean();
-            // lockunspent refuses only a NON-persistent lock request for an already locked coin
-            if (locked.count(c) && !persist) continue;
+        unsigned kind = s.range<unsigned>(0, 9);
+        if ((kind == 4 || kind == 5) && locked.empty()) kind = 0; // nothing to unlock (the RPC refuses to unlock a coin that is not locked): lock instead
+        st.mix(uint64_t(kind));
+        auto cid = [&](const COutPoint& c) { return c.n + 2 * (c.hash == coins[2].hash); };
+        if (kind <= 3) {
+            bool persist = s.boolean();
+            // half of the time aim at an already locked coin; lockunspent refuses only a NON-persistent request for a locked coin
+            COutPoint c = coins[s.index(3)];
+            if (!locked.empty() && s.boolean()) { c = *std::next(locked.begin(), s.index(locked.size())); persist = true; }
+            if (locked.count(c) && !persist) persist = true;
             if (locked.count(c)) ++relocks;
             WITH_LOCK(ws.wallet().cs_wallet, ws.wallet().LockCoin(c, persist));
             locked.insert(c);
             if (persist) persistent.insert(c);
-            st.note(persist ? "lock-persistent " : "lock-memory ", c.n + 2 * (c.hash == coins[2].hash));
-        } else if (kind == 3 || kind == 4) {
-            if (!locked.count(c)) continue; // the RPC refuses to unlock a coin that is not locked
+            st.mix(uint64_t(cid(c) * 2 + persist));
+            st.note(persist ? "lock-persistent " : "lock-memory ", cid(c));
+        } else if (kind == 4 || kind == 5) {
+            const COutPoint c = *std::next(locked.begin(), s.index(locked.size()));
             WITH_LOCK(ws.wallet().cs_wallet, ws.wallet().UnlockCoin(c));
             locked.erase(c); persistent.erase(c); ++unlocks;
-            st.note("unlock ", c.n + 2 * (c.hash == coins[2].hash));
-        } else if (kind == 5) {
+            st.mix(uint64_t(cid(c)));
+            st.note("unlock ", cid(c));
+        } else if (kind == 6) {
             WITH_LOCK(ws.wallet().cs_wallet, ws.wallet().UnlockAllCoins());
             unlocks += !locked.empty();
             locked.clear(); persistent.clear();
